@@ -64,6 +64,15 @@ def make_case(seed, tier):
         ignore = r.sample(cand, min(len(cand), r.choice([1, 1, 2, 3])))
     if r.random() < 0.3:
         ignore.append(r.choice(['NoSuchClass', 'ns::Nope', 'a::B<int>', '']))
+    plain = [c for c, _ in cpps if '<' not in c and c not in ignore]
+    if plain and r.random() < 0.3:
+        # near-miss entries: the simple name of a class that is NOT ignored, under another (absent) namespace, or
+        # stripped of its own namespace - an ignore entry names one C++ class, not every class of that name (h1_C03_1)
+        c = r.choice(plain)
+        last = c.split('::')[-1]
+        near = r.choice(['zz_nowhere::' + last, 'zz_a::zz_b::' + last] + ([last] if '::' in c else ['::' + last]))
+        if near not in [x for x, _ in cpps]:
+            ignore.append(near)
     ser = r.random() < 0.5
     return mod, {'top': list(top), 'ignore': ignore, 'ser': ser}
 
